@@ -152,6 +152,16 @@ Theorem C34_instance_recover_sound :
 Proof. exact dzl_recover_ok_correct. Qed.
 Print Assumptions C34_instance_recover_sound.
 
+(* Split keys in the executable instance: the scalars read from the split keys' private key
+   bytes (what the correspondence compares) are the images of the model's split keys, so a split
+   key's serialized secret is its scalar and the key can be reloaded, shared or split again. *)
+Theorem C34_instance_split_keys_sound :
+  forall (F : fieldType) (p : Z), (1 < p)%Z -> Z.to_nat p \in [char F] ->
+  forall (sk : Z) (ks : list Z), dzl_can p sk -> dzl_cans p ks ->
+    map (dzl_phi F) (dz_split p sk ks) = dkg_split (dzl_phi F sk) (map (dzl_phi F) ks).
+Proof. exact dzl_split_correct. Qed.
+Print Assumptions C34_instance_split_keys_sound.
+
 (* Non-vacuity: a (2,3) instance over the prime field of 7 elements with G1 = G2 = GT = the
    field, e = multiplication; two dealers, ids 1 2 3; the premises hold and ids 1 and 3 recover
    the signature of the group secret 3 + 2 = 5. *)
